@@ -182,9 +182,15 @@ class Node:
         if k in ("union", "cut", "inter"):
             a, b = self.kids[0].to_tp(tp), self.kids[1].to_tp(tp)
             if k == "union":
-                return D.UnionDomain(a, b, disjoint=True) if self.flags.get("disjoint") else a + b
+                if self.flags.get("disjoint"):
+                    from torchphysics.problem.domains.domainoperations.union import UnionDomain
+                    return UnionDomain(a, b, disjoint=True)
+                return a + b
             if k == "cut":
-                return D.CutDomain(a, b, contained=True) if self.flags.get("contained") else a - b
+                if self.flags.get("contained"):
+                    from torchphysics.problem.domains.domainoperations.cut import CutDomain
+                    return CutDomain(a, b, contained=True)
+                return a - b
             return a & b
         if k == "prod":
             return self.kids[0].to_tp(tp) * self.kids[1].to_tp(tp)
